@@ -74,7 +74,7 @@ func crashHistory(h *HistGen, n int) []J {
 }
 
 func streamC05(c *Ctx) {
-	c.Rule = "(i) close/reopen after every prefix of random write histories on bbolt and badger-on-disk: logical state and raw key dump equal to the model's, invariant oracle on the reopened store; " +
+	c.Rule = "(i) close/reopen after every prefix of random write histories on bbolt and badger-on-disk (in every other history some transactions are abandoned before or at their commit by an injected store fault and the history goes on with the same handle): logical state and raw key dump equal to the model's, invariant oracle on the reopened store; " +
 		"(ii) a child process executes a scripted history of batched inserts, bulk updates/deletes and index create/drop, acknowledging each returned operation on a pipe; the parent kills it (SIGKILL) at a uniformly random instant, reopens the directory and requires the raw dump to be the model's state after j operations for j in {acknowledged, acknowledged+1} and the invariant oracle to hold. " +
 		"non-trivial = distinct (history, kill instant) where at least one operation had been acknowledged and the history was not finished"
 	dr := StartDriver(c.DriverBin)
@@ -86,7 +86,9 @@ func streamC05(c *Ctx) {
 		for hN := 0; hN < c.N(12, 300); hN++ {
 			g := NewGen(c.Rng, dm)
 			h := NewHistGen(g, 2, 2)
-			base := h.History(HistCfg{Ops: 12, QueriesPer: 0, Indexes: true, Dumps: true, Malformed: true, NoFresh: true})
+			// every other history: some operations are abandoned before or at their commit by a store fault, the
+			// history goes on with the same handle and is then closed and reopened
+			base := h.History(HistCfg{Ops: 12, QueriesPer: 0, Indexes: true, Dumps: true, Malformed: true, NoFresh: true, Faults: hN%2 == 1})
 			lines := []J{}
 			for _, ln := range base {
 				lines = append(lines, ln)
@@ -99,6 +101,29 @@ func streamC05(c *Ctx) {
 			c.Count("reopen:" + be)
 			if o.Index >= 0 {
 				reportHistoryProblem(c, dr, im, lines, &o, be, HistOpts{}, "reopen")
+				im.Destroy()
+				return
+			}
+		}
+		im.Destroy()
+	}
+	// (i') longer histories with abandoned transactions (a store fault at a random call of every fourth
+	// operation, the commit included), occasional reopen, and a final reopen
+	for _, be := range []string{"bbolt", "badger-disk"} {
+		im := NewImpl(be, c.Scratch)
+		for hN := 0; hN < c.N(30, 500); hN++ {
+			g := NewGen(c.Rng, dm)
+			h := NewHistGen(g, 2, 2)
+			lines := h.History(HistCfg{Ops: 18, QueriesPer: 0, Indexes: true, Dumps: true, Malformed: true, NoFresh: true, Faults: true, Reopen: true})
+			lines = append(lines, J{"k": "reopen"}, J{"k": "dump"})
+			for _, cn := range h.Colls {
+				lines = append(lines, opLine("findAll", J{"q": J{"coll": hx(cn)}}), opLine("listIndexes", J{"coll": hx(cn)}))
+			}
+			o := runHistory(dr, im, lines, HistOpts{})
+			recordHistory(c, lines, &o, be)
+			c.Count("abandoned-then-reopen:" + be)
+			if o.Index >= 0 {
+				reportHistoryProblem(c, dr, im, lines, &o, be, HistOpts{}, "abandoned")
 				im.Destroy()
 				return
 			}
